@@ -55,3 +55,81 @@ Fixpoint check_all_from (T : tables) (esc : byte -> byte) (i : N) (cs : list cas
   end.
 Definition check_all T esc := check_all_from T esc 0%N.
 Definition guard_count (cs : list case) : N := N.of_nat (fold_left (fun a c => a + 2 + length (k_streams c)) cs 0).
+
+(* =============== read-from-string: calls observed on the implementation =============== *)
+(* what a call gave: the object and the position, the eof value and the position, a reader error
+   (incomplete text / parse error), or the refusal of the bounds *)
+Inductive robs := BObj (t : ctree) (pos : nat) | BEof (pos : nat) | BErr (partial : bool) | BBounds
+                | BNil (pos : nat).   (* the plain call gave nil: the object nil, or the (default) eof value *)
+Definition robs_of (r : rfs_result) : option robs :=
+  match r with
+  | FObj t q => match canon t with Some c => Some (BObj c q) | None => None end
+  | FEof q => Some (BEof q)
+  | FErr e _ => Some (BErr (match e with EPartial _ => true | EParse => false end))
+  | FBounds => Some BBounds
+  end.
+Definition robs_eqb (a b : robs) : bool :=
+  match a, b with
+  | BObj x p, BObj y q => ctree_eqb x y && Nat.eqb p q
+  | BEof p, BEof q => Nat.eqb p q
+  | BErr x, BErr y => Bool.eqb x y
+  | BBounds, BBounds => true
+  | BObj CNil p, BNil q | BEof p, BNil q => Nat.eqb p q      (* model on the left, observation on the right *)
+  | _, _ => false
+  end.
+(* the depth of an incomplete text is not kept by read-from-string (it signals a plain error) *)
+Definition same_objects_nd (a b : outcome) : bool :=
+  match a, b with
+  | OOk x _, OOk y _ => list_eqb ctree_eqb x y
+  | OErr EParse, OErr EParse => true
+  | OErr (EPartial x), OErr (EPartial y) => (x <? 900) && (y <? 900) || Nat.eqb x y
+  | _, _ => false
+  end.
+Definition opt_robs_eqb (m : option robs) (o : robs) : bool := match m with Some x => robs_eqb x o | None => false end.
+
+(* one call: the string is the text from q_drop on; q_keys: optional/keyword arguments present *)
+Record rcall := { q_drop : nat; q_keys : bool; q_start : nat; q_end : option nat; q_pw : bool; q_obs : robs }.
+(* a text, what Read gave for all of it, the calls made while reading it form by form, and what the three
+   ways of going through it collected: 0 = (read-from-string rest), 1 = :start pos, 2 = :start pos :preserve-whitespace t *)
+Record rcase := { r_text : list byte; r_whole : outcome; r_calls : list rcall; r_iters : list (N * outcome) }.
+
+Definition call_model (T : tables) (esc : byte -> byte) (text : list byte) (c : rcall) : rfs_result :=
+  rfs_m T esc (q_keys c) (skipn (q_drop c) text) (q_start c) (q_end c) (q_pw c).
+Definition call_rule (T : tables) (esc : byte -> byte) (text : list byte) (c : rcall) : rfs_result :=
+  rfs_s T esc (skipn (q_drop c) text) (if q_keys c then q_start c else 0) (if q_keys c then q_end c else None) (q_keys c && q_pw c).
+Definition call_guard (text : list byte) (c : rcall) : bool :=
+  g_rfs (q_keys c) (skipn (q_drop c) text) (q_start c) (q_pw c) && ascii text.
+Definition iter_model (T : tables) (esc : byte -> byte) (text : list byte) (kind : N) : option result :=
+  match kind with
+  | 0%N => forms_by_suffix_m T esc text
+  | 1%N => forms_by_start_m T esc false text
+  | _ => forms_by_start_m T esc true text
+  end.
+Definition opt_same_objects (m : option outcome) (o : outcome) : bool := match m with Some x => same_objects_nd x o | None => false end.
+Definition opt_outcome_of (r : option result) : option outcome := match r with Some x => outcome_of x | None => None end.
+
+(* 0: every call is what the model of the function computes (and, inside the guard, what the rule demands);
+   3: self-check - a call inside the guard where model = implementation but model <> rule;
+   2: a call inside the guard differs from the model, i.e. from the rule: the reported position (or object) is
+      wrong for this string; or a way of reading the text form by form collected objects different from the
+      read of the whole text where the function as written collects the same;
+   1: a call outside the guard differs from the model, nothing else established *)
+Definition check_rcase (T : tables) (esc : byte -> byte) (c : rcase) : N :=
+  let text := r_text c in
+  let agree (q : rcall) := opt_robs_eqb (robs_of (call_model T esc text q)) (q_obs q) in
+  let rule_ok (q : rcall) := negb (call_guard text q) || opt_robs_eqb (robs_of (call_rule T esc text q)) (q_obs q) in
+  let whole_ok := match outcome_of (s_read T esc text) with Some x => same_objects x (r_whole c) | None => false end in
+  if forallb agree (r_calls c) && whole_ok then (if forallb rule_ok (r_calls c) then 0%N else 3%N)
+  else if negb (forallb (fun q => agree q || negb (call_guard text q)) (r_calls c)) then 2%N
+  else if negb (forallb (fun it : N * outcome => let '(kind, o) := it in
+                           same_objects_nd o (r_whole c) || negb (opt_same_objects (opt_outcome_of (iter_model T esc text kind)) (r_whole c)))
+                        (r_iters c)) then 2%N
+  else 1%N.
+Fixpoint check_rall_from (T : tables) (esc : byte -> byte) (i : N) (cs : list rcase) : list (N * N) :=
+  match cs with
+  | [] => []
+  | c :: cs' => let r := check_rcase T esc c in (if N.eqb r 0 then [] else [(i, r)]) ++ check_rall_from T esc (N.succ i) cs'
+  end.
+Definition check_rall T esc := check_rall_from T esc 0%N.
+Definition rguard_count (cs : list rcase) : N :=
+  N.of_nat (fold_left (fun a c => a + length (filter (call_guard (r_text c)) (r_calls c))) cs 0).
